@@ -10,11 +10,11 @@ mkdir -p build/bin evidence replays
 CLAIMED=$(cat checks/meta/_claimed.txt)
 # 1. regenerate Gen/ tables (if the extractor exists)
 if [ -d tools/gotables ]; then (cd tools/gotables && go build -o ../../build/bin/gotables . && ../../build/bin/gotables -repo /repo -out ../../coq/Gen >/dev/null) || echo "warning: gotables failed"; fi
-# 2. the Coq development of the claimed properties (full .vo build)
-TARGETS=""
-for p in $CLAIMED; do TARGETS="$TARGETS Props/$p.vo"; done
-timeout 3000 coq/mk.sh -j16 $TARGETS
-# 3. everything else, best effort
-timeout 3000 coq/mk.sh -k -j16 >/dev/null 2>&1 || echo "note: some Coq files of unclaimed properties do not build yet"
+# 2. the Coq development of the claimed properties (full .vo build), one property at a time so that a
+#    slow or broken proof of one property cannot prevent the others from being prepared; each check
+#    rebuilds its own targets anyway and reports a broken proof itself
+for p in $CLAIMED; do
+  timeout 1200 coq/mk.sh -j16 Props/$p.vo >/dev/null 2>&1 || echo "warning: Props/$p.vo did not build during setup (its check will report it)"
+done
 cp /repo/go.sum harness/go.sum
 echo setup ok
